@@ -60,6 +60,43 @@ def clash_case(rng):
     return out
 
 
+def same_spelling_case(rng):
+    """one written spelling (`T`, or a partially qualified `X.T`) that denotes *different* extern
+    declarations from different referring scopes: every scope declares its own `T` with a distinct
+    C++ type, the interfaces live in (or below) those scopes and type their event formals by the
+    same short spelling; all ports are rerouted (MTS) so that every formal type is looked up"""
+    pool = [['A'], ['B'], ['A', 'B'], ['C'], ['A', 'C'], ['B', 'A'], ['AB'], []]
+    scopes = rng.sample(pool, rng.randint(2, 4))
+    ctypes = rng.sample(['int', 'long', '::vt::Ext<1>', '::vt::Ext<2>', 'short'], len(scopes))
+
+    def wrap(ns, node):
+        for part in reversed(ns):
+            node = {'k': 'namespace', 'name': [part], 'elems': [node]}
+        return node
+    src, itfs = [], []
+    for k, (sc, ct) in enumerate(zip(scopes, ctypes)):
+        src.append(wrap(sc, {'k': 'extern', 'name': ['T'], 'value': ct}))
+        isc = sc + rng.choice([[], [], ['In']])
+        spelling = ['T'] if rng.random() < 0.7 or not sc else [sc[-1], 'T']
+        events = []
+        for j in range(rng.randint(1, 3)):
+            d = rng.choice(['in', 'out'])
+            fs = [{'name': 'a%d' % i, 'type': list(spelling), 'dir': 'in' if d == 'out' else rng.choice(['in', 'out', 'inout'])}
+                  for i in range(rng.randint(1, 2))]
+            events.append({'name': 'ev%d' % j, 'reply': ['void'], 'formals': fs, 'dir': d})
+        src.append(wrap(isc, {'k': 'interface', 'name': ['I%d' % k], 'types': [], 'events': events}))
+        itfs.append(isc + ['I%d' % k])
+    rng.shuffle(src)
+    ports = [{'name': 'p%d' % k, 'type': list(fq), 'dir': rng.choice(['provides', 'requires']), 'formals': [],
+              'injected': False} for k, fq in enumerate(itfs)]
+    src.append(wrap(['Z'], {'k': 'component', 'name': ['Comp'], 'ports': ports}))
+    cfg = {'filename': 'Model.dzn', 'suffix': 'AdvShell', 'encapsulee': ['Z', 'Comp'],
+           'ports': {'psts': {'w': 'none'}, 'pmts': {'w': 'all'}, 'rsts': {'w': 'none'}, 'rmts': {'w': 'all'}},
+           'multiclient': None, 'origin': rng.choice(['create', 'import']), 'copyright': 'c', 'prefix': None,
+           'creator': None}
+    return {'op': 'build.c07', 'src': src, 'ast': M.enc_root(src), 'cfg': cfg, 'expect': 'any'}
+
+
 class C07(Prop):
     id = 'C07'
     theorems = ['C07.port_type_is_the_denoted_interface', 'C07.port_lookup_error', 'C07.formal_type_is_the_denoted_extern', 'C07.formal_lookup_error', 'C07.lambda_params_typed', 'C07.elements_denote', 'C07.lookup_errors', 'C07.unrelated_declarations_irrelevant', 'C07.second_candidate_is_an_error', 'C14.find_fqn_spec', 'C14.order']
@@ -70,11 +107,14 @@ class C07(Prop):
                   'declarations in related and unrelated scopes; the monitor resolves every written name with the '
                   'specification lookup (unique member of the scope chain) and checks the generated accessor and '
                   'lambda types against it, or demands a library error when there is no unique candidate of the '
-                  'right kind; non-trivial = >=1 port; distinct = distinct case')
+                  'right kind; a second stream gives every scope its own extern T with a distinct C++ type and types the '
+                  'formals of interfaces in different scopes by the same short spelling; '
+                  'non-trivial = >=1 port; distinct = distinct case')
 
     def streams(self, rng, tier):
         n = 400 if tier == 'quick' else 15000
         yield 'name-clash', [clash_case(rng) for _ in range(n)]
+        yield 'same-spelling', [same_spelling_case(rng) for _ in range(n // 2)]
         plain = []
         for _ in range(n // 4):
             c = G.gen_case(rng)
